@@ -229,7 +229,7 @@ func (r *foRun) probesC02() {
 		}
 		// some other Get on the key overlapped the failing call
 		for _, o := range r.ops {
-			if o.key == c.key && o.inv < c.seq && o.ret > c.seq && fmt.Sprintf("c%d", o.client) != c.task {
+			if o.key == c.key && o.inv < c.seq && o.ret > c.seq && o.task != c.task {
 				if c.kind == "read" {
 					out.probe("other_get_in_flight_at_unexpected_read_error")
 				} else {
